@@ -37,7 +37,8 @@ impl<'a, T> Iterator for AxisIter<'a, T> {
     }
 
     fn size_hint(&self) -> (usize, Option<usize>) {
-        let n = self.array.shape[self.axis.0];
+        // Remaining views: the axis length (zero for an out-of-bounds axis) less those yielded.
+        let n = self.array.shape.get(self.axis.0).copied().unwrap_or(0) - self.index;
         (n, Some(n))
     }
 }
